@@ -763,6 +763,14 @@ func (p *Parser) parseTransferEncoding() error {
 
 //go:norace
 func (p *Parser) parseContentLength() (err error) {
+	// several Content-Length lines must all carry the same value.
+	if vals := p.header[contentLengthHeader]; len(vals) > 1 && !p.chunked {
+		for _, v := range vals[1:] {
+			if textproto.TrimString(v) != textproto.TrimString(vals[0]) {
+				return fmt.Errorf("%s %q", "bad Content-Length", v)
+			}
+		}
+	}
 	if cl := p.header.Get(contentLengthHeader); cl != "" {
 		if p.chunked {
 			return ErrUnexpectedContentLength
